@@ -42,10 +42,14 @@ def _ref_for(rng, k, includer_url):
         # a reference that is already percent-encoded (a URL reference, not
         # a file name): it must be used as it stands
         return rng.choice(["sp%20dir/", "a%2Bb/", "%7Euser/"]) + name
-    if r < 0.35:
+    if r < 0.33:
         if includer_url.startswith("file:"):
             return "file:/sim/abs1/" + name     # single-slash spelling
         return name
+    if r < 0.35:
+        # a path-absolute reference: resolved against the includer's URL it
+        # keeps the includer's scheme and host
+        return "/sim/abs2/" + name
     if r < 0.55:
         return "sub/" + name
     if r < 0.7:
